@@ -19,6 +19,13 @@ NEG = {"<": ">=", "<=": ">", ">": "<=", ">=": "<", "==": "!=", "!=": "=="}
 FLIP = {"<": ">", "<=": ">=", ">": "<", ">=": "<=", "==": "==", "!=": "!="}
 
 
+import re as _re
+
+
+def noid_(s):
+    return _re.sub(r"#\d+", "", s)
+
+
 def rel(cfg, key):
     """normalised relation (op, lhs, rhs) asserted by a branch fact, or None"""
     n = cfg.fact_node(key)
@@ -94,6 +101,7 @@ def run(ctx):
     R.assumptions += ["dtypeSize * count does not overflow dim_t", "OCCA_ERROR guards are compiled in (OCCA_UNSAFE 0, the pinned configuration)"]
     R.rule("C02-R1", "dereference of X.modeMemory in a user-facing memory operation is dominated by a non-null guard on the same object X", floor=20)
     R.rule("C02-R2", "byte-addressing call is dominated by sign guards on offset/bytes and by bytes+offset <= size of the addressed object, bound to the passed variables", floor=20)
+    R.rule("C02-R7", "an element offset/count is scaled to bytes by the dtype size of the memory object it addresses", floor=10)
     R.rule("C02-R4", "memory-to-memory byte mover (operands may alias through slices) is overlap tolerant", floor=1)
     R.rule("C02-R5", "slices alias their parent's buffer; clones allocate a fresh buffer", floor=5)
     R.rule("C02-R6", "Serial byte movers move exactly `bytes` between ptr+offset operands with the right roles", floor=6)
@@ -182,6 +190,44 @@ def run(ctx):
                 ok = sign_ok(bytes_arg, (0, -1) if name != "slice" else (0,))
                 R.ob("C02-R2", ok, fname, "sign:bytes(%s) before %s" % (render(bytes_arg, False), name), f.site(c),
                      "negative byte count is rejected" if ok else "no guard rejects a negative byte count before it reaches the byte mover")
+            def scale_of(e):
+                """(rendered scale factor object, param) for  v = K * p  with K resolved through a local"""
+                e = strip(e)
+                if e["k"] != "DeclRefExpr":
+                    return None
+                ds = defs.get(e["d"], ())
+                if len(ds) != 1 or ds[0]["k"] != "VarDecl" or not kids(ds[0]):
+                    return None
+                m = strip(kids(ds[0])[0])
+                if m["k"] != "BinaryOperator" or m.get("op") != "*":
+                    return None
+                for K in kids(m):
+                    K = strip(K)
+                    hops = 0
+                    while K["k"] == "DeclRefExpr" and K.get("loc") and hops < 3:
+                        kd = defs.get(K["d"], ())
+                        if len(kd) == 1 and kd[0]["k"] == "VarDecl" and kids(kd[0]):
+                            K = strip(kids(kd[0])[0])
+                            hops += 1
+                        else:
+                            break
+                    txt = render(K)
+                    if txt.endswith("->dtype_->bytes()"):
+                        return txt[:-len("->dtype_->bytes()")]
+                return None
+            for (oarg, mem) in roles + [(bytes_arg, recv if name != "copyFrom" or len(roles) < 2 else None)]:
+                if mem is None:
+                    # memory->memory copy: the count is in elements of *this
+                    mem_txt = "this->modeMemory"
+                else:
+                    mem_txt = render(mem)
+                sc = scale_of(oarg)
+                if sc is None:
+                    continue
+                ok7 = sc == mem_txt or (oarg is bytes_arg and sc == "this->modeMemory")
+                R.ob("C02-R7", ok7, fname, "scale:%s by dtype of %s" % (render(oarg, False), noid_(mem_txt)), f.site(c),
+                     "element units are converted to bytes with the dtype size of the memory they address" if ok7 else
+                     "%s is scaled by the dtype size of %s but addresses %s: with different element sizes the bytes land at the wrong offset and the range check guards the wrong range" % (render(oarg, False), noid_(sc), noid_(mem_txt)))
             for (oarg, mem) in roles:
                 ov = strip(oarg)
                 if const_of(ov) is not None and const_of(ov) >= 0:
